@@ -218,6 +218,9 @@ fn cmd_run(args: &[String]) -> i32 {
     for (k, v) in &counters.map {
         cj[*k] = simcore::ju64(*v);
     }
+    for (k, v) in &counters.dynmap {
+        cj[k.as_str()] = simcore::ju64(*v);
+    }
     cj["page_allocs_seen"] = simcore::ju64(guard::PAGE_ALLOCS_SEEN.load(std::sync::atomic::Ordering::Relaxed));
     o["counters"] = cj;
     let mut kj = JsonValue::new_object();
